@@ -150,7 +150,7 @@ def fingerprint_final_geometry(prog, rep, rid):
 def check(prog, rep, tier):
     rep.extra["explanation"] = EXPL
     rep.rule("C07.bloom-formula", "Bloom bits / hashes / narrowed rate follow the documented formulas; zero hashes rejected", floor=4)
-    rep.rule("C07.countmin-formula", "count-min width = ceil(2/eps), depth = ceil(-ln(1-c)/ln 2)", floor=2)
+    rep.rule("C07.countmin-formula", "count-min width = ceil(2/eps), depth = ceil(-ln(1-c)/ln 2), for every flavour of the sketch (subclass constructors looked through)", floor=10)
     rep.rule("C07.cuckoo-formula", "cuckoo fingerprint bits = ceil(log2(1/eps) + log2(bucket) + 1) and its inverse", floor=2)
     rep.rule("C07.deterministic", "the sizing functions have no write effect and call only pure functions", floor=3)
     rep.rule("C07.single-source", "every write of the Bloom geometry comes from _get_optimized_params(stored est, stored fpr) through _set_values", floor=8)
@@ -186,35 +186,43 @@ def check(prog, rep, tier):
     else:
         rep.bad("C07.bloom-formula", f"{ctx}._get_optimized_params", "zero-hash guard", "a parameter pair that yields 0 hashes is not rejected", g.where())
     # ------------------------------------------------------------------ count-min
-    init = prog.method("CountMinSketch", "__init__")
-    ips = [p for p in paths(prog, "CountMinSketch", init) if p.exit[0] == "return"]
-    rep.analysed(init, "CountMinSketch", len(ips))
     conf, err = ("p", "confidence"), ("p", "error_rate")
     wantw = mcall("ceil", ("bin", "/", C(2), err))
     wantd = mcall("ceil", ("bin", "/", ("un", "-", mcall("log", ("bin", "-", C(1), conf))), C(LN2)))
-    seen = False
-    done = set()
-    for p in ips:
-        w = p.fields.get((SELF, "_CountMinSketch__width"))
-        d = p.fields.get((SELF, "_CountMinSketch__depth"))
-        if w is None or d is None:
-            continue
-        # a path that keeps the caller's accuracy pair (either of them ends up in the error-rate / confidence fields, or feeds a
-        # dimension) promises that accuracy: BOTH dimensions must then come from the pair by the documented formulas
-        e_ = p.fields.get((SELF, "_CountMinSketch__error_rate"), C(None))
-        c_ = p.fields.get((SELF, "_CountMinSketch__confidence"), C(None))
-        uses = {n_[1] for v_ in (w, d, e_, c_) for n_ in walk(v_) if n_[0] == "p"}
-        if "error_rate" in uses or "confidence" in uses:
-            k_ = (canon(strip_epochs(w)), canon(strip_epochs(d)))
-            if k_ in done:
+    # every flavour of the sketch (the base class and each subclass, whose constructor forwards to the base one) is decided on its own
+    # constructor with the base constructor looked through: the accuracy pair a caller hands to ANY flavour sizes it by the same formulas
+    family = [c for c in sorted(prog.classes) if any(k.name == "CountMinSketch" for k in prog.classes[c].mro())]
+    if "CountMinSketch" not in family:
+        raise AnalysisError("class CountMinSketch not found")
+    for cls_ in family:
+        init = prog.classes[cls_].find_method("__init__")
+        if init is None:
+            raise AnalysisError(f"{cls_} has no constructor")
+        ips = [p for p in paths(prog, cls_, init, force_inline=("__init__",)) if p.exit[0] == "return"]
+        rep.analysed(init, cls_, len(ips))
+        seen = False
+        done = set()
+        for p in ips:
+            w = p.fields.get((SELF, "_CountMinSketch__width"))
+            d = p.fields.get((SELF, "_CountMinSketch__depth"))
+            if w is None or d is None:
                 continue
-            done.add(k_)
-            seen = True
-            conform(rep, "C07.countmin-formula", "CountMinSketch.__init__", "width", wantw, w, init.where())
-            conform(rep, "C07.countmin-formula", "CountMinSketch.__init__", "depth", wantd, d, init.where())
-    if not seen:
-        rep.bad("C07.countmin-formula", "CountMinSketch.__init__", "no sizing from confidence / error_rate",
-                "no construction path derives width and depth from (confidence, error_rate) any more", init.where())
+            # a path that keeps the caller's accuracy pair (either of them ends up in the error-rate / confidence fields, or feeds a
+            # dimension) promises that accuracy: BOTH dimensions must then come from the pair by the documented formulas
+            e_ = p.fields.get((SELF, "_CountMinSketch__error_rate"), C(None))
+            c_ = p.fields.get((SELF, "_CountMinSketch__confidence"), C(None))
+            uses = {n_[1] for v_ in (w, d, e_, c_) for n_ in walk(v_) if n_[0] == "p"}
+            if "error_rate" in uses or "confidence" in uses:
+                k_ = (canon(strip_epochs(w)), canon(strip_epochs(d)))
+                if k_ in done:
+                    continue
+                done.add(k_)
+                seen = True
+                conform(rep, "C07.countmin-formula", f"{cls_}.__init__", "width", wantw, w, init.where())
+                conform(rep, "C07.countmin-formula", f"{cls_}.__init__", "depth", wantd, d, init.where())
+        if not seen:
+            rep.bad("C07.countmin-formula", f"{cls_}.__init__", "no sizing from confidence / error_rate",
+                    f"no construction path of {cls_} derives width and depth from (confidence, error_rate) any more", init.where())
     # ------------------------------------------------------------------ cuckoo
     # a remembered sub-term (log2 of the bucket size, say) stands for its formula when every writer of its inputs refreshes it
     from ..common import expand_derived, maintained_derived
@@ -312,6 +320,8 @@ MUTANTS = [
     Mutant("width = floor(2/eps)", _CM, replace_expr("CountMinSketch", "__init__", "math.ceil(2 / error_rate)", "math.floor(2 / error_rate)"), rule="C07.countmin"),
     Mutant("width = ceil(1/eps)", _CM, replace_expr("CountMinSketch", "__init__", "math.ceil(2 / error_rate)", "math.ceil(1 / error_rate)"), rule="C07.countmin"),
     Mutant("depth uses log(confidence)", _CM, replace_expr("CountMinSketch", "__init__", "math.log(1 - confidence)", "math.log(confidence)"), rule="C07.countmin"),
+    Mutant("StreamThreshold forwards (error_rate, confidence) crossed", _CM, replace_stmt("StreamThreshold", "__init__", "super().__init__(width, depth, confidence, error_rate, filepath, hash_function)", "super().__init__(width, depth, error_rate, confidence, filepath, hash_function)"), rule="C07.countmin"),
+    Mutant("CountMeanSketch forwards by keyword (same value)", _CM, replace_stmt("CountMeanSketch", "__init__", "super().__init__(width, depth, confidence, error_rate, filepath, hash_function)", "super().__init__(width=width, depth=depth, error_rate=error_rate, confidence=confidence, filepath=filepath, hash_function=hash_function)"), expect="silent"),
     Mutant("_calc_fingerprint_size with round", _CK, replace_expr("CuckooFilter", "_calc_fingerprint_size", "math.ceil(math.log2(1.0 / self.error_rate) + math.log2(self.bucket_size) + 1)", "round(math.log2(1.0 / self.error_rate) + math.log2(self.bucket_size) + 1)"), rule="C07.cuckoo"),
     Mutant("_calc_fingerprint_size drops the + 1", _CK, replace_expr("CuckooFilter", "_calc_fingerprint_size", "math.log2(1.0 / self.error_rate) + math.log2(self.bucket_size) + 1", "math.log2(1.0 / self.error_rate) + math.log2(self.bucket_size) + 0"), rule="C07.cuckoo"),
     Mutant("bits formula uses the un-narrowed rate", _B, replace_expr("BloomFilter", "_get_optimized_params", "math.log(t_fpr)", "math.log(false_positive_rate)"), rule="C07.bloom"),
